@@ -135,7 +135,7 @@ func c33SQLRun(t *testing.T, leg string) {
 	c33TuneRaceRuntime()
 	r := verifkit.Start(t, "C33", leg)
 	defer r.Finish(c33Rule, c33Assumptions...)
-	caps := c33Caps{Proc: "sql", PollSecs: []int{5}, RandQuick: 150, RandThorough: 4000, RandLargeQuick: 40, RandLargeThorough: 1500} // the SQL processor's polling interval is a constant
+	caps := c33Caps{Proc: "sql", PollSecs: []int{5}, RandQuick: 150, RandThorough: 4000, RandLargeQuick: 40, RandLargeThorough: 600} // the SQL processor's polling interval is a constant
 	var replay map[string]any
 	if rep := verifkit.Replay(); rep != nil {
 		replay, _ = rep["replay"].(map[string]any)
